@@ -843,3 +843,6 @@ twin("C10-T3", "C10", "saved values sorted before writing (harmless once cells a
 mutant("C12-M32", "C12", "R12x", "optional effect columns no longer reset per row (seeded C12e)", PR, "ProgramSet._read_effects", "                baseline = None\n                cov_interaction = None\n                imp_interaction = None\n                uncertainty = None\n", "                baseline = None\n", edits=[dict(file=PR, func="ProgramSet._read_effects", old="            for row in table[1:]:", new="            cov_interaction = None\n            imp_interaction = None\n            uncertainty = None\n            for row in table[1:]:"), dict(file=PR, func="ProgramSet._read_effects", old="                baseline = None\n                cov_interaction = None\n                imp_interaction = None\n                uncertainty = None\n", new="                baseline = None\n")])
 mutant("C11-M40", "C11", "R13a", "unfunded programs get coverage 0 without asking get_prop_covered (seeded C11e)", M, "Model.update_pars", "prop_coverage[k] = self.progset.programs[k].get_prop_covered(self.t[ti], self._program_cache[\"capacities\"][k][ti], n)", "prop_coverage[k] = self.progset.programs[k].get_prop_covered(self.t[ti], self._program_cache[\"capacities\"][k][ti], n) if self._program_cache[\"capacities\"][k][ti] > 0 else np.zeros(1)")
 mutant("C13-M27", "C13", "R12a", "programs ordered by outcome instead of effect relative to baseline (seeded C13e)", PR, "Covout.update_outcomes", "key=lambda x: -abs(x[1] - self.baseline)", "key=lambda x: -abs(x[1])")
+mutant("C17-M21", "C17", "R17a", "per-sample worker reseeds from the process id (seeded C17e)", RS, "_sample_and_map_worker", "    np.random.seed()", "    np.random.seed(os.getpid())", edits=[dict(file=RS, old="import numpy as np\n", new="import os\nimport numpy as np\n"), dict(file=RS, func="_sample_and_map_worker", old="    np.random.seed()", new="    np.random.seed(os.getpid())")])
+mutant("C17-M22", "C17", "R17a", "pool initialiser reseeds with a constant", U, "_worker_init", "    np.random.seed()", "    np.random.seed(0)")
+twin("C17-T9", "C17", "reseed written with an explicit None", RS, "_sample_and_map_worker", "    np.random.seed()", "    np.random.seed(None)")
